@@ -205,6 +205,30 @@ theorem verifyHeader_reports_first_violation (cfg : Config) (now : Nat) (sealBad
   show headerRule Gen.diffParams cfg now sealBad h parent uncle doSeal = _
   rw [gen_constants_are_the_statements.1]
 
+/-- the public entry point `VerifyHeader`: a header that is not yet known is accepted iff its parent (by hash and number) is
+    known, above height 2 its grandparent too, and it is valid relative to that parent. (A known header is accepted outright.) -/
+theorem verifyHeaderEntry_iff (cfg : Config) (now : Nat) (sealBad : Header → Bool) (chain : Chain) (h : Header) (doSeal : Bool)
+    (hord : cfg.ordered = true) (hnow : now + 15 < two64) (hunknown : chain.getHeader h.hash h.number = none)
+    (hpg : ∀ p, chain.getHeader h.parentHash (subU64 h.number 1) = some p → p.gasLimit < two63) :
+    verifyHeaderEntry (genEnv cfg now sealBad) chain h doSeal = none ↔
+      ∃ p, chain.getHeader h.parentHash (subU64 h.number 1) = some p ∧
+        (h.number > 2 → (chain.getHeader p.parentHash (subU64 h.number 2)).isSome = true) ∧
+        HeaderValid Spec.diffParams cfg now sealBad h p false doSeal := by
+  unfold verifyHeaderEntry
+  simp only [hunknown, Option.isSome_none, Bool.false_eq_true, if_false]
+  cases hp : chain.getHeader h.parentHash (subU64 h.number 1) with
+  | none => simp
+  | some p =>
+    simp only [Option.some.injEq, exists_eq_left']
+    by_cases h2 : h.number > 2
+    · cases hg : chain.getHeader p.parentHash (subU64 h.number 2) with
+      | none => simp [h2]
+      | some g =>
+        simp only [h2, if_true, decide_true, Option.isSome_some, Option.isNone_some, Bool.and_false, Bool.false_eq_true, if_false, true_implies, true_and]
+        exact verifyHeader_iff cfg now sealBad h p _ false doSeal hord (hpg p hp) (fun _ => hnow) (fun hc => by cases hc)
+    · simp only [h2, if_false, decide_false, Bool.false_and, Bool.false_eq_true, false_implies, true_and]
+      exact verifyHeader_iff cfg now sealBad h p _ false doSeal hord (hpg p hp) (fun _ => hnow) (fun hc => by cases hc)
+
 /-- **finding** — uncle timestamps of 2^64 and above: `verifyHeader` hands `header.Time.Uint64()` (the low 64 bits) to the
     difficulty function, so the difficulty rule is evaluated on a wrapped timestamp.  Witness on the test schedule: an uncle
     with time `2^64 + 5` on a parent with time 1000 is ACCEPTED with the "fast block → increase" difficulty although the
